@@ -38,7 +38,7 @@ MappedOk(e) ==
 \* coarse signature of what was observed instead (for known-finding matching)
 GotKind(e) ==
     IF e.event = "ZodVsPlain" THEN ShapeOfZod(e.zod).k
-    ELSE IF e.event \in {"SameDecl", "DeclNames", "Keys"} THEN "differs"
+    ELSE IF e.event \in {"SameDecl", "DeclNames", "Keys", "ModesAgree"} THEN "differs"
     ELSE IF e.event = "Mapped" THEN (IF Got(e) # GotSubst(e) THEN Got(e).k
                                      ELSE IF ~(AsSet(e.referenced) \subseteq AsSet(e.declared) \cup TsBuiltinNames) THEN "undeclared-ref"
                                      ELSE "same")
@@ -50,6 +50,9 @@ Judge(e) ==
       [] e.event = "ZodVsPlain" -> ZodVsPlainOk(e)
       [] e.event = "Mapped"     -> MappedOk(e)
       [] e.event = "SameDecl"   -> e.a = e.b
+      \* C10 at the sites where both modes emit a TypeScript type (return, channel message, event payload):
+      \* the two renderings of one Rust item denote the same shape and mention the same names
+      [] e.event = "ModesAgree" -> ShapeOfTs(e.none) = ShapeOfTs(e.zod) /\ AsSet(e.nnames) = AsSet(e.znames)
       [] e.event = "DeclNames"  -> AsSet(e.none) = AsSet(e.zod)
       [] e.event = "Keys"       -> AsSet(e.none) = AsSet(e.zod)
       [] OTHER -> FALSE
